@@ -3,6 +3,7 @@ package sched
 import (
 	"fmt"
 	"math/rand"
+	"os"
 	"sync/atomic"
 	"time"
 
@@ -105,6 +106,15 @@ func Lockstep(b Beh, rng *rand.Rand, pause time.Duration, patient ...bool) ([]Mi
 		r.freeRun()
 		select {
 		case <-r.done:
+			// every task has been let go and Schedule has returned by itself: a stage that is still
+			// waiting or running now (and is not left waiting in the model) was abandoned by the loop
+			for i, x := range r.statuses() {
+				if (x == "W" && b.Final[i] != "W") || x == "R" {
+					ms = append(ms, Mismatch{"C03", "stage-left-waiting-or-running",
+						fmt.Sprintf("after the mismatch every task was released and Schedule returned, leaving stage %d %s (model: %s)", i+1, x, b.Final[i])})
+					break
+				}
+			}
 		case <-time.After(2 * time.Second):
 			r.sched.Cancel()
 			select {
@@ -126,6 +136,17 @@ func Lockstep(b Beh, rng *rand.Rand, pause time.Duration, patient ...bool) ([]Mi
 		released[step.Rel] = true
 		st, infl, stuck = r.quiesce(released, stepDeadline)
 		if ms := classify(b.Config, step.St, step.Run, st, infl, stuck, at); len(ms) > 0 {
+			if r.hasReturned() && k+1 < len(b.Steps) {
+				// Schedule has returned although the model still has tasks to complete: stages are left
+				// waiting or running (C03), whatever the status comparison says
+				for i, x := range st {
+					if x == "W" || x == "R" {
+						ms = append(ms, Mismatch{"C03", "stage-left-waiting-or-running",
+							fmt.Sprintf("%s: Schedule has returned while stage %d is %s (statuses %v, model %v)", at, i+1, x, st, step.St)})
+						break
+					}
+				}
+			}
 			return abort(ms)
 		}
 	}
@@ -246,6 +267,12 @@ func ReplayAll(behs []Beh, env *core.Env, rep *core.Report, pause time.Duration,
 				pendingIdx = append(pendingIdx, i)
 			}
 		}
+		if os.Getenv("VERIF_DEBUG") != "" {
+			fmt.Fprintf(os.Stderr, "DEBUG %s: %d behaviours with mismatches before the patient re-execution\n", label, len(pendingIdx))
+			for _, i := range pendingIdx[:min(3, len(pendingIdx))] {
+				fmt.Fprintf(os.Stderr, "DEBUG   %v\n", results[i].ms)
+			}
+		}
 		for _, i := range pendingIdx {
 			if reexec >= 8 {
 				break
@@ -261,6 +288,9 @@ func ReplayAll(behs []Beh, env *core.Env, rep *core.Report, pause time.Duration,
 				back++
 			}
 			results[i] = res{ms, err, i}
+		}
+		if os.Getenv("VERIF_DEBUG") != "" && len(pendingIdx) > 0 {
+			fmt.Fprintf(os.Stderr, "DEBUG %s: %d re-executed, %d came back\n", label, reexec, back)
 		}
 		if len(pendingIdx) > 0 && back == 0 {
 			for _, i := range pendingIdx {
@@ -310,4 +340,11 @@ func relOrder(b Beh) []int {
 		o = append(o, s.Rel)
 	}
 	return o
+}
+
+func min(a, b int) int {
+	if a < b {
+		return a
+	}
+	return b
 }
